@@ -364,6 +364,9 @@ class Interp:
         return ops.mk_bool(acc)
 
     def compare(self, op, a, b, node=None):
+        co = getattr(self.pack, "coerce_pair", None)
+        if co is not None:
+            a, b = co(a, b)
         if isinstance(op, (ast.In, ast.NotIn)):
             t = self.contains(b, a, node)
             return ops.b_not(t) if isinstance(op, ast.NotIn) else t
@@ -442,6 +445,9 @@ class Interp:
             if ("%s.%s" % (recv.kind.name, attr)) in self.pack.models:
                 return BoundMethod(recv, attr)
         if isinstance(recv, Sym) and isinstance(recv.kind, Rec):
+            h = self.pack.models.get("getattr:%s.%s" % (recv.kind.name, attr))
+            if h:
+                return h(self, recv)
             if ("%s.%s" % (recv.kind.name, attr)) in self.pack.models:
                 return BoundMethod(recv, attr)
             if attr in recv.kind.fields:
@@ -961,6 +967,8 @@ class Interp:
         raise Unsupported("cannot havoc %s" % lv)
 
     def fresh_like(self, cur, hint, decl=None):
+        if cur is not None and hasattr(cur, "pyvc_havoc"):
+            return cur.pyvc_havoc(self.ctx, hint)  # custom containers keep what a loop cannot change
         if decl is not None:
             return decl.fresh(self.ctx, hint) if isinstance(decl, Kind) else decl
         if isinstance(cur, Sym):
@@ -1563,6 +1571,8 @@ class Interp:
         if self.ctx.branch(i < n, "for@%d" % node.lineno):
             self.ctx.cover(lname + "/body")
             self.assign_target(node.target, getter(i), env)
+            for nm, stxt in lc.lemmas.items():
+                self.ctx.check("%s/lemma.%s" % (lname, nm), ops.truth(self.spec(stxt, env)), detail=stxt)
             try:
                 self.exec_block(node.body, env)
             except Brk:
